@@ -84,6 +84,15 @@ def c17_1(ctx):
     ctx.check(ok and not rebinding, 'include:loaded-file-recorded', load.site(adds[0]) if adds else load.site(),
               'every loaded file is added to the shared set in place (no private copy)',
               f'{[unparse(a) for a in adds]}; rebinding: {[unparse(r) for r in rebinding]}')
+    # recorded and tested under the same spelling: the path an AssemblyFile records is the path it was created with
+    afi = ctx.repo.func(AF + '.__init__')
+    stf = self_attr_stores(afi.node, '_filename')
+    ctx.check(len(stf) == 1 and unparse(stf[0][2]) == afi.call_params[0].arg, 'include:path-recorded-as-located', afi.site(),
+              'a file records the path it was located under, unchanged (the included-twice test compares that spelling with the spelling of the next located path)',
+              '; '.join(unparse(x[0]) for x in stf))
+    afg = ctx.repo.func(AF + '.filename')
+    rr_ = returns(afg)
+    ctx.check(len(rr_) == 1 and unparse(rr_[0].value) == 'self._filename', 'include:path-read-as-recorded', afg.site(), 'file.filename is that path', '; '.join(unparse(r) for r in rr_))
     # missing / ambiguous
     lf = ctx.repo.func(AF + '._locate_filename')
     r2 = resolver(ctx, lf, inline=False)
@@ -237,10 +246,16 @@ def c17_state(ctx):
     state_discipline(ctx, ('bespokeasm.assembler.assembly_file', 'bespokeasm.assembler.engine', 'bespokeasm.assembler.label_scope', 'bespokeasm.assembler.memory_zone'))
 
 
-RULES = [c17_1, c17_3, c17_5, c17_6, c17_state]
+def c17_labels(ctx):
+    """"Global labels are as if the text were pasted in place": a name defined in both files is a duplicate (C06.3)."""
+    from rules.c06 import c06_3
+    c06_3(ctx)
+
+RULES = [c17_1, c17_3, c17_5, c17_6, c17_state, c17_labels]
 
 _A = 'assembler/assembly_file.py'
 MUTANTS = [
+    V('c17-filename-canonicalised-on-one-side', 'assembler/assembly_file.py', "        self._filename = filename\n", "        self._filename = os.path.realpath(filename)\n", 'C17.1'),
     V('c17-condition-stack-handed-down', 'assembler/assembly_file.py', "                condition_stack = ConditionStack()\n", "                condition_stack = getattr(preprocessor, '_stack_of_includer', None) or ConditionStack()\n", 'C17.5'),
     V('c17-include-name-with-slash', 'assembler/assembly_file.py', "([\\w\\.\\-\\_]+)(?:\\'|\\\")',", "([\\w\\.\\-\\_/]+)(?:\\'|\\\")',", 'C17.1'),
     V('c17-twice-allowed', _A, "            if new_filepath in assembly_files_used:\n                sys.exit(f'ERROR: {line_id} - assembly file included multiple times')\n", "", 'C17.1'),
